@@ -188,7 +188,9 @@ func funcObj(f *ssa.Function) *types.Func {
 
 func newLockCtx(u *Universe, thorough bool) *lockCtx {
 	lc := &lockCtx{u: u, v: newCGView(u, thorough), safe: map[*ssa.Function]bool{}}
-	fns := u.ordaFuncs(func(p string) bool { return p == pDatatypes || p == pOrda || p == pCManagers || p == pModel || p == pOperations })
+	fns := u.ordaFuncs(func(p string) bool {
+		return p == pDatatypes || p == pOrda || p == pCManagers || p == pModel || p == pOperations
+	})
 	for _, f := range fns {
 		lc.safe[f] = true
 	}
